@@ -159,6 +159,23 @@ type Sim struct {
 	cursor   map[string]int // rotating index policy: per node
 	sched    *Scheduler
 	counting bool // kube reactor counts only while an operation is armed
+	marks    []string
+}
+
+// Mark appends a harness-side event (Bind returned an error, Rollback was entered, ...).
+func (s *Sim) Mark(m string) {
+	s.mu.Lock()
+	s.marks = append(s.marks, m)
+	s.mu.Unlock()
+}
+
+// TakeMarks returns and clears the harness-side events.
+func (s *Sim) TakeMarks() []string {
+	s.mu.Lock()
+	defer s.mu.Unlock()
+	m := s.marks
+	s.marks = nil
+	return m
 }
 
 func NewScheme() *runtime.Scheme {
@@ -692,12 +709,19 @@ type phaseBinder struct {
 func (p *phaseBinder) Bind(ctx context.Context, pod *v1.Pod, node *v1.Node, br *schedulingv1alpha2.BindRequest) error {
 	p.s.SetPhase("bind")
 	defer p.s.SetPhase("")
-	return p.inner.Bind(ctx, pod, node, br)
+	err := p.inner.Bind(ctx, pod, node, br)
+	if err != nil {
+		p.s.Mark("bind-failed")
+	} else {
+		p.s.Mark("bind-ok")
+	}
+	return err
 }
 
 func (p *phaseBinder) Rollback(ctx context.Context, pod *v1.Pod, node *v1.Node, br *schedulingv1alpha2.BindRequest) error {
 	p.s.SetPhase("rollback")
 	defer p.s.SetPhase("")
+	p.s.Mark("rollback")
 	return p.inner.Rollback(ctx, pod, node, br)
 }
 
